@@ -136,7 +136,7 @@ Qed.
 Lemma head_ops_disciplined : forallb (disciplined rank_head []) head_ops = true.
 Proof. vm_compute. reflexivity. Qed.
 
-Lemma rank_head_bounded : forall l, Nat.min l 9 <= 9.
+Lemma rank_head_bounded : forall l, Nat.min l 11 <= 11.
 Proof. intros; lia. Qed.
 
 (** threads that execute any sequences of operations of the current code never deadlock *)
@@ -146,10 +146,10 @@ Theorem head_lock_order_acyclic :
     deadlocked (lrun1 (linit (map (@concat ev) progs)) sched) = false.
 Proof.
   intros progs sched H.
-  apply (lock_order_no_deadlock (fun l => Nat.min (rank_head l) 9) 9 rank_head_bounded).
+  apply (lock_order_no_deadlock (fun l => Nat.min (rank_head l) 11) 11 rank_head_bounded).
   intros tr Htr. apply in_map_iff in Htr as (p & <- & Hp).
   assert (T : forall o, In o head_ops ->
-                disciplined (fun l => Nat.min (rank_head l) 9) [] o = true).
+                disciplined (fun l => Nat.min (rank_head l) 11) [] o = true).
   { apply forallb_forall. vm_compute. reflexivity. }
   apply disciplined_concat. intros o Ho. apply T. eapply H; eauto.
 Qed.
@@ -194,3 +194,9 @@ Example memo_prefix_cross_thread_deadlock :
 Proof.
   exists (repeat 1 7 ++ repeat 0 7). vm_compute. reflexivity.
 Qed.
+
+(** one site of the memo fix reverted (`mark_subscribers_check` walks the subscribers under
+    `reactivity.read()`): the writer of s and the effect re-running on another thread deadlock *)
+Example memo_mark_prefix_cross_thread_deadlock :
+  exists sched, deadlocked (lrun1 (linit [e_rerun_mt; s_set_me_prefix]) sched) = true.
+Proof. exists (repeat 0 4 ++ repeat 1 9 ++ [0; 1; 1]). vm_compute. reflexivity. Qed.
